@@ -46,7 +46,18 @@ let run file =
       let c = (match !cur with ["caller"; c] -> int_of_string c | _ -> -1) in
       let committed = List.filter (fun x -> x <> "-") (String.split_on_char ',' (get kv "committed")) in
       let counter = int_of_string (get kv "counter") in
-      (* (S) *)
+      (* (S) a caller is told the outcome of ITS OWN function: what it gets is what its last invocation did - never another
+         caller's error or panic, and never nothing *)
+      let invs = List.filter (fun x -> x <> "-" && x <> "") (String.split_on_char ';' (get kv "invs")) in
+      (match List.rev invs with
+       | last :: _ ->
+         (match String.split_on_char ':' last with
+          | [_; _; outc] ->
+            let want = (match outc with "ok" -> "nil" | x -> x) in
+            if res <> want && res <> "hang" then
+              report "PROPFAIL" "rule=own_result_only" (Printf.sprintf "caller got %s but its own last invocation ended %s (invocations %s)" res outc (get kv "invs"))
+          | _ -> ())
+       | [] -> if res <> "hang" then report "PROPFAIL" "rule=own_result_only" (Printf.sprintf "caller got %s although its function was never invoked" res));
       (match res with
        | "nil" -> if List.length committed <> 1 || counter <> 1 then
            report "PROPFAIL" "rule=nil_means_exactly_once" (Printf.sprintf "committed invocations %s, counter %d" (get kv "committed") counter)
